@@ -132,3 +132,42 @@ def in_units(node, u):
             if key in out:
                 out[key] = [sc(e) for e in out[key]]
     return out
+
+
+def gen_routine(rng, dt, n=None, fns=None, depth=None, shape=None):
+    """A sub-expression that is the *result of a cola routine* applied to a well-conditioned argument (DESIGN 4.25): lazy
+    inverses and pseudo-inverses, matrix functions, Cholesky factors, products of plu / svd factors."""
+    n = int(rng.integers(1, 6)) if n is None else n
+    fn = S.pick(rng, fns or ["inv", "inv", "inv", "pinv", "exp", "sqrt", "isqrt", "pow2", "pow-1", "pow0.5", "log", "cholL", "pluprod", "svdprod"])
+    depth = int(S.pick(rng, [0, 0, 1])) if depth is None else depth
+    f8 = dt in ("f8", "c16")
+    if fn == "inv":
+        psd = rng.random() < 0.4
+        arg = gen_invertible(rng, depth, dt, n, psd)
+        algs = [None, "Auto", "LU"] + (["Cholesky", "CG"] if psd and f8 else (["Cholesky"] if psd else [])) + (["GMRES"] if f8 and not psd else [])
+        return {"k": "Routine", "fn": "inv", "alg": S.pick(rng, algs), "arg": arg}
+    if fn == "pinv":
+        if shape is None:  # (shape: of the *result*; the argument has the transposed shape)
+            shape = [n, n]
+        shape = [shape[1], shape[0]]
+        arg = {"k": "Dense", "shape": shape, "dt": dt, "seed": S.seed(rng), "gen": "svals", "svals": lin(1.0, 3.0, min(shape))}
+        return {"k": "Routine", "fn": "pinv", "alg": S.pick(rng, [None, "LSTSQ"]), "arg": arg}
+    if fn in ("pluprod", "svdprod"):
+        arg = gen_invertible(rng, depth, dt, n, False, plain=True)
+        return {"k": "Routine", "fn": fn, "alg": None, "arg": arg}
+    # matrix functions and Cholesky: Hermitian positive definite arguments (reporting PSD)
+    arg = gen_invertible(rng, depth, dt, n, True)
+    if fn == "cholL":
+        return {"k": "Routine", "fn": fn, "alg": None, "arg": arg}
+    return {"k": "Routine", "fn": fn, "alg": S.pick(rng, [None, "Auto", "Eigh"] + (["Lanczos"] if f8 else [])), "arg": arg}
+
+
+def direct_only(node):
+    """The same tree with every routine result obtained through a direct algorithm (an empty selection of a lazily evaluated
+    Krylov result would ask the iteration for zero right-hand sides, which the solver statements C12-C15 do not admit)."""
+    if not isinstance(node, dict):
+        return node
+    out = {k: ([direct_only(c) for c in v] if k in ("args", "head", "tail") else (direct_only(v) if k == "arg" else v)) for k, v in node.items()}
+    if out.get("k") == "Routine" and out.get("alg") in ("CG", "GMRES", "Lanczos", "Arnoldi"):
+        out["alg"] = None
+    return out
